@@ -327,3 +327,166 @@ var assumeBroker = []string{
 	notExec,
 }
 
+
+// concretize turns a valid filter into a topic name it matches.
+func (x *g) concretize(f string) string {
+	r := x.r
+	lit := func() string {
+		for {
+			if l := x.levels[r.Intn(len(x.levels))]; l != "" {
+				return l
+			}
+		}
+	}
+	var out []string
+	for _, l := range splitLevels(f) {
+		switch l {
+		case "+":
+			out = append(out, lit())
+		case "#":
+			for i := r.Intn(3); i > 0; i-- {
+				out = append(out, lit())
+			}
+		default:
+			out = append(out, l)
+		}
+	}
+	t := ""
+	for i, l := range out {
+		if i > 0 {
+			t += "/"
+		}
+		t += l
+	}
+	if t == "" {
+		t = lit()
+	}
+	return t
+}
+
+func splitLevels(t string) []string {
+	var out []string
+	start := 0
+	for i := 0; i < len(t); i++ {
+		if t[i] == '/' {
+			out = append(out, t[start:i])
+			start = i + 1
+		}
+	}
+	return append(out, t[start:])
+}
+
+var invalidFilters = []string{"a/#/b", "a+", "#x", "+x", "a/b#", "a/+b", "#/a", "b/#/"}
+
+// genSuback is the C07 profile: SUBSCRIBE / UNSUBSCRIBE packets with 1..12
+// filters (valid, invalid, repeated, overlapping), requested QoS 0..2 and out
+// of range, a server maximum below 2, and a publisher probing every filter
+// before, between and after.
+func genSuback(prop string) func(tier string, seed uint64, idx int) interface{} {
+	return func(tier string, seed uint64, idx int) interface{} {
+		x := newGen(seed, prop, idx, tier)
+		r := x.r
+		x.sc.Profile = "suback"
+		x.knobs()
+		x.sc.Knobs.MaxQoS = byte([]int{2, 2, 1, 0}[r.Intn(4)])
+		x.sc.Knobs.LinkCap = 65536
+		x.alphabet(r.Bool(1, 4))
+		nsub := 1 + r.Intn(2)
+		nc := nsub + 1
+		x.seq = make([]int, nc)
+		x.pid = make([]int, nc)
+		var pool []string // valid filters in use, for the publisher
+		for ci := 0; ci < nsub; ci++ {
+			cl := Client{}
+			cl.Ops = append(cl.Ops, x.connect(ci, true))
+			var mine []string
+			nops := 1 + r.Intn(5)
+			for i := 0; i < nops; i++ {
+				switch k := r.Intn(10); {
+				case k < 6:
+					n := 1 + r.Intn(3)
+					if r.Bool(1, 3) {
+						n = 4 + r.Intn(9)
+					}
+					op := Op{K: "sub", PID: x.nextPID(ci)}
+					for j := 0; j < n; j++ {
+						f := x.filter()
+						switch r.Intn(12) {
+						case 0:
+							f = invalidFilters[r.Intn(len(invalidFilters))]
+						case 1, 2:
+							if len(mine) > 0 {
+								f = mine[r.Intn(len(mine))] // repeated
+							}
+						}
+						q := byte(r.Intn(3))
+						if r.Bool(1, 15) {
+							q = []byte{3, 0x7f, 0xff, 0x80}[r.Intn(4)]
+						}
+						op.Filters = append(op.Filters, f)
+						op.QoSs = append(op.QoSs, q)
+						mine = append(mine, f)
+						pool = append(pool, f)
+					}
+					cl.Ops = append(cl.Ops, op)
+				case k < 8 && len(mine) > 0:
+					n := 1 + r.Intn(3)
+					if r.Bool(1, 3) {
+						n = 4 + r.Intn(9)
+					}
+					op := Op{K: "unsub", PID: x.nextPID(ci)}
+					for j := 0; j < n; j++ {
+						f := mine[r.Intn(len(mine))]
+						if r.Bool(1, 10) {
+							f = x.filter() // never subscribed
+						}
+						op.Filters = append(op.Filters, f)
+					}
+					cl.Ops = append(cl.Ops, op)
+				default:
+					cl.Ops = append(cl.Ops, Op{K: "barrier"})
+				}
+				if r.Bool(1, 2) {
+					cl.Ops = append(cl.Ops, Op{K: "barrier"})
+				}
+			}
+			cl.Ops = append(cl.Ops, Op{K: "barrier"}, Op{K: "ping"})
+			x.sc.Clients = append(x.sc.Clients, cl)
+		}
+		// publisher
+		pi := nc - 1
+		cl := Client{}
+		cl.Ops = append(cl.Ops, x.connect(pi, true))
+		rounds := 2 + r.Intn(5)
+		for i := 0; i < rounds; i++ {
+			np := 1 + r.Intn(4)
+			for j := 0; j < np; j++ {
+				x.seq[pi]++
+				t := x.topic()
+				if len(pool) > 0 && r.Bool(4, 5) {
+					f := pool[r.Intn(len(pool))]
+					if validFilterLocal(f) {
+						t = x.concretize(f)
+					}
+				}
+				op := Op{K: "pub", Topic: t, QoS: byte(r.Intn(3)), Size: 8 + r.Intn(40), Seq: x.seq[pi]}
+				if op.QoS > 0 {
+					op.PID = x.nextPID(pi)
+				}
+				cl.Ops = append(cl.Ops, op)
+			}
+			cl.Ops = append(cl.Ops, Op{K: "ping"}, Op{K: "barrier"})
+		}
+		x.sc.Clients = append(x.sc.Clients, cl)
+		return x.sc
+	}
+}
+
+func validFilterLocal(f string) bool {
+	for _, bad := range invalidFilters {
+		if f == bad {
+			return false
+		}
+	}
+	return f != ""
+}
